@@ -219,10 +219,10 @@ theorem opLock_cinv (db : DB) (c : Cmd) (hi : DBInv db) (h : CInv db) : CInv (op
   | «show» cur | updateEqual h' | relockNoHold h' | relockRefused h' => exact h
   | update h' =>
     simp only [applyLock]
-    exact Flight.close (Flight.step hf (updateHold_db_keys _ _ _) rfl (by rw [updateHold_ctr]) (by rw [updateHold_ctr]))
+    exact wake_flight _ _ _ c.key (Flight.step hf (updateHold_db_keys _ _ _) rfl (by rw [updateHold_ctr]) (by rw [updateHold_ctr]))
   | relock h' =>
     simp only [applyLock]
-    refine Flight.close (n := c.key) (Flight.step hf ?_ rfl ?_ ?_)
+    refine wake_flight _ _ _ c.key (Flight.step hf ?_ rfl ?_ ?_)
     · simp [updateHold_db_keys]
     · simp only [updateHold_ctr]; omega
     · simp only [updateHold_ctr]
@@ -281,7 +281,7 @@ theorem opUnlock_cinv (db : DB) (c : Cmd) (hi : DBInv db) (h : CInv db) : CInv (
   | cancel w =>
     have hm := classifyUnlock_cancel_mem db c w hb
     simp only [applyUnlock]
-    refine Flight.close (n := c.key) (Flight.step hf rfl rfl rfl ?_)
+    refine wake_flight _ _ _ c.key (Flight.step hf rfl rfl rfl ?_)
     have := removeWaiter_length hm
     simp only []; omega
   | dec h' c' =>
@@ -302,7 +302,7 @@ theorem opUnlock_cinv (db : DB) (c : Cmd) (hi : DBInv db) (h : CInv db) : CInv (
 theorem fireTimeout_cinv (db : DB) (key : Nat) (w : Waiter) (hm : w ∈ (db.getKey key).waiters) (h : CInv db) :
     CInv (fireTimeout db key w).1 := by
   unfold fireTimeout
-  refine Flight.close (n := key) (Flight.step (Flight.start h key) rfl rfl rfl ?_)
+  refine wake_flight _ _ _ key (Flight.step (Flight.start h key) rfl rfl rfl ?_)
   have := removeWaiter_length hm
   simp only []; omega
 
